@@ -24,7 +24,13 @@ Inputs  : task outcomes (an object(), None, 0, "", a fresh [], False; TaskError,
           callables (function, functools.partial, callable instance, instances with __bool__ False / __len__ 0,
           with and without __name__; returning, raising, of wrong arity; set_callback(None), also as a
           re-registration), observers done() / result(0.01) / result(0) / result(0.0) / result(None).
-          Every object is identified BY IDENTITY (futsched.Run.tok); the harness never asks for a truth value.
+          HOSTILE exception objects (harness/hostile.py: `__str__` / `__repr__` / `__format__` / `args` / `__bool__` /
+          `__eq__` / `__hash__` raising, `__str__` returning None, 1 MiB and format-directive / lone-surrogate messages,
+          classes with required constructor arguments) raised BY THE CALLBACK (registration `(x, extra, form, <kind>)`)
+          and by the task (outcome `raiseH_<kind>`): every kind in every run, registered before and after completion
+          (`hostile_programs`), in the random programs, and exhaustively interleaved in the thorough tier.
+          Every object is identified BY IDENTITY (futsched.Run.tok); the harness never asks for a truth value, a string,
+          a hash or an equality of any of them.
 Monitor : written from the property statement on what the real code did (callback invocations with their
           arguments, logger records, done()/result() outcomes, execute()'s outcome, a result(timeout) call that
           sits in an untimed wait), ordered by the spans of the client calls.  Independent of the model.
@@ -33,6 +39,7 @@ import hashlib
 import json
 
 import futsched as fs
+import hostile
 
 REQUIRED_THEOREMS = [
     "C16_done_iff", "C16_done_after_stored", "C16_done_stable", "C16_not_done_before",
@@ -43,7 +50,7 @@ REQUIRED_THEOREMS = [
     # companions of the extracted facts: lean/JRV/Properties/C16Gen.lean (built and audited separately)
     "C16_gen_futLockDiscipline", "C16_gen_futNotifyOutsideLock", "C16_gen_eventStoreOrder",
     "C16_gen_notifyContains", "C16_gen_executeShape", "C16_gen_waitGuard", "C16_gen_notifyGuard",
-    "C16_gen_waitTimeoutForwarded",
+    "C16_gen_waitTimeoutForwarded", "C16_gen_futNotifyLogsExcOpaque",
 ]
 
 TIMED_WAIT = "timed-wait-raises-outcome"
@@ -412,6 +419,13 @@ def exhaustive_programs(thorough):
         ps.append(prog("ret", [[("r", "t", "f"), ("x", "t", "f")]]))        # re-registration by the same client
         ps.append(prog("raise", [[("x", "N", "f"), ("r", "t", "f")]]))
         ps.append(prog("ret0", [[("r", "t", "b"), ("n", "N", "f")]]))       # re-registration with None
+        # hostile exception objects raised by the callback / by the task: every interleaving
+        ps.append(prog("ret", [[("x", "t", "f", "strraise")]]))
+        ps.append(prog("raise", [[("x", "N", "i", "allbad")]]))
+        ps.append(prog("raiseH_fmtraise", [[("x", "0", "p", "reprraise")]]))
+        ps.append(prog("raiseH_allbad", [[("r", "t", "f")]], [["t"]]))
+        ps.append(prog("raiseH_boolraise", [], [["d", "z"]]))
+        ps.append(prog("raiseH_eqraise", [[("x", "F", "L", "strnone")]]))
     return ps
 
 
@@ -449,6 +463,47 @@ def bounded_programs(thorough):
     return ps
 
 
+def hostile_programs():
+    """
+    Callbacks (and tasks) raising HOSTILE exception objects - every kind of harness/hostile.py, on every form of
+    callable.  Part of EVERY run under two schedules each: the registrar first (registered BEFORE completion: the
+    executor invokes the callback inside execute()) and the executor first (registered AFTER completion: set_callback()
+    invokes it at once).  Monitor (from the statement): "an exception raised by the callback is contained: it changes
+    neither the stored outcome nor the executing worker's progress" - set_callback() does not raise
+    (`set-callback-raised`), execute() returns / raises exactly what the task did (`execute-outcome`), done() / result()
+    are the task's outcome afterwards (`stored-outcome`, `result-*`), exactly one invocation (`callback-*`).
+    """
+    ps = []
+    n = len(hostile.KINDS)
+    for k, h in enumerate(hostile.KINDS):
+        form = fs.FORMS[k % len(fs.FORMS)]
+        extra = fs.EXTRA_SPECS[k % len(fs.EXTRA_SPECS)]
+        # the callback raises a hostile object; the task returns / raises a plain one
+        ps.append(prog("ret" if k % 2 == 0 else "raise", [[("x", extra, form, h)]]))
+        # both the task and the callback raise hostile objects (of different kinds); an observer reads the outcome
+        ps.append(prog("raiseH_" + h, [[("x", "t", "f", hostile.KINDS[(k + 1) % n])]], [["b", "d"]]))
+        # the task raises a hostile object which is handed to a callback that returns; polls
+        ps.append(prog("raiseH_" + h, [[("r", extra, form)]], [["z", "t"]]))
+    # re-registration: two raising callbacks by the same client
+    ps.append(prog("ret0", [[("x", "t", "f", "strraise"), ("x", "N", "p", "allbad")]]))
+    return ps
+
+
+HOSTILE_PREFIXES = (["R0"], ["E"])
+
+
+def hostile_sweep(col, pin):
+    pin.again()
+    n = 0
+    for p in hostile_programs():
+        for prefix in HOSTILE_PREFIXES:
+            r = fs.Run(p, col.table, col.codes).execute(fs.default_chooser(prefix))
+            n += 1
+            if col.on_run(r, "hostile"):
+                return n
+    return n
+
+
 def random_program(rng):
     regs = []
     for _ in range(rng.randint(1, 4)):
@@ -458,12 +513,18 @@ def random_program(rng):
             u = rng.random()
             extra = "t" if u < 0.5 else ("N" if u < 0.65 else rng.choice(FALSY_EXTRA))
             form = "f" if rng.random() < 0.35 else rng.choice(fs.FORMS[1:])
-            calls.append((kind, extra, form))
+            if kind == "x" and rng.random() < 0.5:
+                # the callback raises a hostile exception object
+                calls.append((kind, extra, form, rng.choice(hostile.KINDS)))
+            else:
+                calls.append((kind, extra, form))
         regs.append(calls)
     obs = []
     for _ in range(rng.randint(0, 3)):
         obs.append([rng.choice(["d", "t", "t", "b", "z", "Z"]) for _ in range(rng.choice([1, 2, 3]))])
     outcome = rng.choice(OUTCOMES + ["ret", "raise"] + FALSY_RET + ODD_RAISE)
+    if rng.random() < 0.15:
+        outcome = rng.choice(fs.HOSTILE_OUTCOMES)
     if rng.random() < 0.06:
         outcome = None
         obs = [[c if c != "b" else "t" for c in o] for o in obs]
@@ -508,6 +569,15 @@ class Collector(object):
             if k_ != "n":
                 ctx.hist["registration:callable=%s" % f_] += 1
             ctx.hist["registration:extra=%s" % x_] += 1
+            if run.cb_hostile.get(rid) is not None:
+                ctx.hist["hostile:callback-registered-raising=%s" % run.cb_hostile[rid]] += 1
+        for (rid_, _d, _x, _xt, call_, _w, _t) in run.calls:
+            if run.cb_hostile.get(rid_) is not None:
+                # hostile objects really raised by a callback, by who invoked it (executor: registered before completion)
+                ctx.hist["hostile:callback-raised=%s/%s" % (run.cb_hostile[rid_],
+                                                             "in-execute" if call_ == "E" else "in-set_callback")] += 1
+        if run.program.get("outcome") in fs.HOSTILE_OUTCOMES:
+            ctx.hist["hostile:task-raised=%s" % run.program["outcome"][7:]] += 1
         for (rid_, _c, _w, _t) in run.attempted:
             f_ = run.regs[rid_][2]
             if f_ in fs.FALSY_FORMS:
@@ -554,8 +624,11 @@ LEGEND = {
                 "raisenoargs": "raises an Exception subclass with args == ()",
                 "raisefalsy": "raises an Exception subclass whose __bool__ is False",
                 "raiselen": "raises an Exception subclass whose __len__ is 0", "raiseos": "raises OSError(...)",
+                "raiseH_<kind>": "raises a HOSTILE exception object (harness/hostile.py): " + ", ".join(hostile.KINDS),
                 "None": "no execute() at all"},
-    "registration": "(kind, extra, callable): kind r returns / x raises / a wrong arity / n set_callback(None); "
+    "registration": "(kind, extra, callable[, hostile]): kind r returns / x raises (a CallbackError, or a hostile exception "
+                    "object of the given kind: strraise __str__ raises, strnone __str__ returns None, reprraise, fmtraise "
+                    "__format__ raises, argsraise, huge, nonascii, ctor, boolraise, eqraise, allbad) / a wrong arity / n set_callback(None); "
                     "extra t ('extra', r) / N None / 0 / s '' / u () / F False; callable f function / p functools.partial / "
                     "i callable instance / b instance with __bool__ False / l instance with __len__ 0 "
                     "(p i b l have no __name__; B L are b l with a __name__ attribute)",
@@ -563,14 +636,24 @@ LEGEND = {
 }
 
 
+# reported first when several monitors fire on one execution: what the statement says in so many words about a
+# raising callback ("contained: it changes neither the stored outcome nor the executing worker's progress")
+CONTAINMENT_KEYS = ("execute-outcome", "set-callback-raised", "stored-outcome", "execute-never-returns")
+
+
+def _containment_first(hits):
+    return sorted(hits, key=lambda h: 0 if h[0] in CONTAINMENT_KEYS else 1)
+
+
 def report_violation(ctx, col, which=None):
     run, hits = which or col.violation
+    hits = _containment_first(hits)
     key = hits[0][0]
 
     def fails(r):
         return any(k == key for k, _ in monitor(r))
     sched, small = fs.shrink(run.program, run.choices, fails, col.table, col.codes)
-    hits = monitor(small) if any(h[0] == key for h in monitor(small)) else hits
+    hits = _containment_first(monitor(small)) if any(h[0] == key for h in monitor(small)) else hits
     case = {
         "program": small.program,
         "schedule": sched,
@@ -683,8 +766,9 @@ def add_assumptions(ctx):
     ctx.assumptions.append(
         "C16: objects are compared by identity; the generated results / extras / exceptions / callables include "
         "falsy-but-not-None ones (0, '', [], False, (), exceptions with empty args or falsy __bool__/__len__, callable "
-        "instances with __bool__ False or __len__ 0, callables without __name__: functools.partial, instances) but not "
-        "objects whose __eq__/__bool__/__len__ raise or have side effects")
+        "instances with __bool__ False or __len__ 0, callables without __name__: functools.partial, instances) and "
+        "hostile EXCEPTION objects raised by tasks and callbacks (special methods that raise: harness/hostile.py); results, "
+        "extras and callables whose __eq__/__bool__/__len__/__repr__ raise or have side effects are not generated")
 
 
 class Pinned(object):
@@ -733,7 +817,8 @@ def _run(ctx, pin):
         return f
     all_exhausted = True
     small_exhausted = True
-    progs = exhaustive_programs(thorough)
+    ctx.extra["hostile_sweep_runs"] = hostile_sweep(col, pin)
+    progs = [] if col.violation else exhaustive_programs(thorough)
     for k, p in enumerate(progs):
         # the one-registrar-one-executor programs come first and are small (127 schedules each)
         deadline = t0 + t_exh
@@ -799,7 +884,8 @@ def search(ctx):
             return col.on_run(r, kind) or time.time() > deadline
         return f
     try:
-        for p in exhaustive_programs(True):
+        hostile_sweep(col, pin)
+        for p in ([] if col.violation else exhaustive_programs(True)):
             pin.again()
             fs.explore(p, on("search-exhaustive", d_exh), None, 6000, col.table, col.codes)
             if col.violation or time.time() > d_exh:
